@@ -95,6 +95,8 @@ func carriers(n int64) []gen.Named {
 		}
 		add("uint64", uint64(n))
 		add("uint", uint(n))
+		add("uintptr", uintptr(n))
+		add("defined type on uintptr", gen.NamedUptr(n))
 	}
 	// a float carries n if converting there and back gives n again (2^60 is as good an integer as 2^20); the
 	// conversion back is only defined below 2^63
